@@ -9,6 +9,7 @@ from .common import gen_factor, gen_measure
 
 REG = Registry("C18")
 KINDS = ["general", "rank-one", "linear", "constant", "measure", "measure+cache", "measure+queried", "diag-measure", "pdf", "diag-pdf",
+         "pdf+updated", "diag-pdf+updated",
          "cond-full", "cond-diag", "cond-identity", "cond-identity-diag", "cond-nn"]
 
 
@@ -21,6 +22,13 @@ def _build(w, kind, R):
         u, _ = gen_measure(w, "u", R, "D")
         u.log_integral()          # populates Sigma, ln_det, lnZ, mu
         return u
+    if kind.endswith("+updated"):
+        # history: a batched density some of whose components were overwritten in place by update()
+        diag = kind.startswith("diag")
+        p = SP.gen_pdf(w, "p", R, "D", diag=diag)[0]
+        d = SP.gen_pdf(w, "d", "Rn", "D", diag=diag)[0]
+        p.update(w.index_map("idx", "Rn", R), d)                         # REAL (in place)
+        return p
     if kind == "diag-pdf":
         return SP.gen_pdf(w, "p", R, "D", diag=True)[0]
     return gen_factor(w, kind, "f", R, "D")[0]
@@ -121,11 +129,14 @@ def _register():
         for R in ("R", 1):
             if kind == "cond-nn" and R != 1:
                 continue
-            sorts = (["R"] if R != 1 else []) + ["N"] + (["D"] if not kind.startswith("cond-") else (["Dy"] if "identity" in kind else ["Dx", "Dy"])) + (["Du"] if kind == "cond-nn" else [])
+            if kind.endswith("+updated") and R == 1:
+                continue
+            sorts = (["R"] if R != 1 else []) + (["Rn"] if kind.endswith("+updated") else []) + ["N"] + (["D"] if not kind.startswith("cond-") else (["Dy"] if "identity" in kind else ["Dx", "Dy"])) + (["Du"] if kind == "cond-nn" else [])
             REG.ob(f"pytree/{kind}/R={R}", sorts=sorts,
                    funcs=["utils.dataclass.register_dataclass_type_with_jax_tree_util", "utils.dataclass.mappable_dataclass.new_init",
-                          "utils.dataclass._Dataclass.__call__"],
-                   axioms=["jax.tree_util calls flatten_func / unflatten_func exactly as registered"])(_mk_pytree(kind, R))
+                          "utils.dataclass._Dataclass.__call__"] + (["pdf.GaussianDiagPDF.update" if kind.startswith("diag") else "pdf.GaussianPDF.update"] if kind.endswith("+updated") else []),
+                   axioms=["jax.tree_util calls flatten_func / unflatten_func exactly as registered"] +
+                          (["scatter with duplicate indices: one winner per component, the same for every field"] if kind.endswith("+updated") else []))(_mk_pytree(kind, R))
     for kind in ("general", "rank-one", "linear", "constant", "measure", "diag-measure", "pdf", "diag-pdf"):
         for R in ("R", 1):
             REG.ob(f"to_dict-from_dict/{kind}/R={R}", sorts=(["R"] if R != 1 else []) + ["N", "D"],
